@@ -9,6 +9,15 @@ again and the observable state is recorded:
 * ``["mk", i, lim, cls, timeout]``  new workflow instance ``i`` (``lim`` = None | int,
   ``cls`` picks one of two workflow classes -- two instances may share a class)
 * ``["start", i]``                  ``wf.run(...)``; run ids are 1,2,3.. per instance
+* ``["start", i, opts]``            the same with ``opts`` = ``{"cleanup": k | "gate", "rid_of": r0}`` (both optional):
+                                    ``cleanup`` -- the step of this run has an ASYNCHRONOUS cancellation clean-up: when it is
+                                    cancelled (hard or soft cancel, time-out) it first awaits ``k`` loop iterations
+                                    (``k`` an int) or its clean-up gate (``"gate"``, opened by ``clean``) before it lets
+                                    the cancellation through -- step code that still executes, inside the run's slot;
+                                    ``rid_of`` -- the run is started under the ``run_id`` string of run ``r0`` of the same
+                                    instance, which was aborted before (``handler.cancel()`` frees the id at once; what the
+                                    server's idle-release runtime does when it reloads a released run)
+* ``["clean", i, r]``               open the clean-up gate of run ``r`` (its cancelled step finishes its clean-up)
 * ``["open", i, r, "ok"|"fail"]``   open the gate of run ``r``'s step (it returns / raises)
 * ``["hard", i, r]``                ``handler.cancel()`` (task.cancel())
 * ``["soft", i, r]``                ``handler.cancel_run()`` (cancel tick to the control loop)
@@ -86,6 +95,14 @@ class Live:
         self.soft: set = set()
         self.implicit: set = set()             # waiting runs cancelled by an expired cancel_run()
         self.dropped: set = set()
+        # asynchronous cancellation clean-up of steps; run_id strings (re-used after an abort)
+        self.cleanup: dict[tuple, Any] = {}    # (i,r) -> k | "gate"
+        self.cgates: dict[tuple, asyncio.Event] = {}
+        self.cleaning: list = []               # (i,r) whose cancelled step is inside its clean-up right now
+        self.aborted: dict[tuple, int] = {}    # (i,r) -> number of handler.cancel() calls
+        self.run_ids: dict[tuple, str] = {}    # (i,r) -> run_id string
+        self.id_owner: dict[str, tuple] = {}   # run_id string -> latest run started under it
+        self.reused: dict[tuple, int] = {}     # (i,c) -> r0: run c was started under the run_id of run r0
         # nested starts: commands handed to executing steps, what each step waits for, who started whom
         self.cmds: dict[tuple, list] = {}      # (i,r) -> [(j, how), ...] not yet performed by the step of (i,r)
         self.pending_cmds = 0
@@ -102,6 +119,36 @@ class Live:
         live = self
 
         def mk(name: str) -> type:
+            async def body(i: int, r: int) -> StopEvent:
+                while True:
+                    await live.gates[(i, r)].wait()
+                    cmds = live.cmds.get((i, r))
+                    if cmds:
+                        # a nested start: this step itself (or a task it spawns) calls run()
+                        j, how = cmds.pop(0)
+                        if how == "task":
+                            async def _bg(j: int = j, how: str = how) -> None:
+                                live.launch(i, r, j, how)  # type: ignore[misc]
+
+                            live.bg.append(asyncio.ensure_future(_bg()))
+                        else:
+                            made = live.launch(i, r, j, how)  # type: ignore[misc]
+                            if how == "await" and made is not None:
+                                live.awaiting[(i, r)] = made[0]
+                                try:
+                                    # (not `await task`: cancelling this step must not cancel the child)
+                                    await asyncio.wait({made[1]})
+                                finally:
+                                    live.awaiting.pop((i, r), None)
+                            made = None
+                        continue
+                    if (i, r) in live.modes:
+                        break
+                    live.gates[(i, r)].clear()
+                if live.modes.get((i, r)) == "fail":
+                    raise Boom(f"run {i}.{r}")
+                return StopEvent(result=r)
+
             async def work(self: Any, ctx: Context, ev: GateStart) -> StopEvent:
                 i, r = self._verif_inst, ev.rid
                 loop = asyncio.get_event_loop()
@@ -109,34 +156,23 @@ class Live:
                 live.entered.add((i, r))
                 live.executing[i].append(r)
                 try:
-                    while True:
-                        await live.gates[(i, r)].wait()
-                        cmds = live.cmds.get((i, r))
-                        if cmds:
-                            # a nested start: this step itself (or a task it spawns) calls run()
-                            j, how = cmds.pop(0)
-                            if how == "task":
-                                async def _bg(j: int = j, how: str = how) -> None:
-                                    live.launch(i, r, j, how)  # type: ignore[misc]
-
-                                live.bg.append(asyncio.ensure_future(_bg()))
-                            else:
-                                made = live.launch(i, r, j, how)  # type: ignore[misc]
-                                if how == "await" and made is not None:
-                                    live.awaiting[(i, r)] = made[0]
-                                    try:
-                                        # (not `await task`: cancelling this step must not cancel the child)
-                                        await asyncio.wait({made[1]})
-                                    finally:
-                                        live.awaiting.pop((i, r), None)
-                                made = None
-                            continue
-                        if (i, r) in live.modes:
-                            break
-                        live.gates[(i, r)].clear()
-                    if live.modes.get((i, r)) == "fail":
-                        raise Boom(f"run {i}.{r}")
-                    return StopEvent(result=r)
+                    try:
+                        return await body(i, r)
+                    except asyncio.CancelledError:
+                        # asynchronous clean-up of whatever the limit protects: still step code of THIS run
+                        cu = live.cleanup.get((i, r))
+                        if cu:
+                            live.cleaning.append((i, r))
+                            live.events.append(("cleanup", i, r, loop.time()))
+                            try:
+                                if cu == "gate":
+                                    await live.cgates.setdefault((i, r), asyncio.Event()).wait()
+                                else:
+                                    for _ in range(int(cu)):
+                                        await asyncio.sleep(0)
+                            finally:
+                                live.cleaning.remove((i, r))
+                        raise
                 finally:
                     live.executing[i].remove(r)
                     live.events.append(("exit", i, r, loop.time()))
@@ -275,6 +311,8 @@ def run_scenario(sc: dict, chooser: Callable[[Live, int], Any] | None = None, ma
 
     def register(i: int, r: int, h: Any) -> Any:
         live.handlers[(i, r)] = h
+        live.run_ids[(i, r)] = h.run_id
+        live.id_owner[h.run_id] = (i, r)
         t = h._external_adapter._queues.complete
         live.tasks[(i, r)] = t
         live.events.append(("start", i, r, live.loop.time()))  # type: ignore[union-attr]
@@ -324,10 +362,36 @@ def run_scenario(sc: dict, chooser: Callable[[Live, int], Any] | None = None, ma
             emit(f"mk {i} {'-' if lim is None else lim}", "ok")
         elif kind == "start":
             i = op[1]
+            opts = op[2] if len(op) > 2 and isinstance(op[2], dict) else {}
             live.nruns[i] += 1
             r = live.nruns[i]
             live.gates[(i, r)] = asyncio.Event()
-            h = live.insts[i].run(start_event=GateStart(rid=r))
+            rkw: dict[str, Any] = {}
+            if opts.get("cleanup"):
+                cu = opts["cleanup"]
+                if cu != "gate" and not (isinstance(cu, int) and 0 < cu <= 1000):
+                    raise ValueError(f"unknown clean-up mode {cu!r}")
+                live.cleanup[(i, r)] = cu
+                if cu == "gate":
+                    live.cgates[(i, r)] = asyncio.Event()
+            if opts.get("rid_of") is not None:
+                r0 = int(opts["rid_of"])
+                if (i, r0) not in live.run_ids:
+                    raise ValueError(f"start under the run_id of run {i}.{r0}, which does not exist")
+                rkw["run_id"] = live.run_ids[(i, r0)]
+                live.reused[(i, r)] = r0
+            try:
+                h = live.insts[i].run(start_event=GateStart(rid=r), **rkw)
+            except RuntimeError as e:
+                if "run_id" not in rkw:
+                    raise
+                # (a replayed op list on another implementation: the id is not free there)
+                errors.append(f"start of run {i}.{r} under the run_id of the aborted run {i}.{opts['rid_of']} raised "
+                              f"{type(e).__name__}: {e}")
+                live.nruns[i] -= 1
+                live.reused.pop((i, r), None)
+                live.cleanup.pop((i, r), None)
+                return
             register(i, r, h)
             emit(f"start {i} {r}", "ok")
         elif kind == "nstart":
@@ -348,8 +412,12 @@ def run_scenario(sc: dict, chooser: Callable[[Live, int], Any] | None = None, ma
         elif kind == "hard":
             _, i, r = op
             live.hard.add((i, r))
+            live.aborted[(i, r)] = live.aborted.get((i, r), 0) + 1
             _hard_cancel(live.handlers[(i, r)])
             emit(f"cancel {i} {r}", "ok")
+        elif kind == "clean":
+            _, i, r = op
+            live.cgates.setdefault((i, r), asyncio.Event()).set()
         elif kind == "soft":
             _, i, r = op
             live.soft.add((i, r))
@@ -390,6 +458,7 @@ def run_scenario(sc: dict, chooser: Callable[[Live, int], Any] | None = None, ma
                         for (ii, q), t in live.tasks.items():
                             if ii == i and not t.done() and getattr(t, "_fut_waiter", None) is fut:
                                 live.hard.add((ii, q))
+                                live.aborted[(ii, q)] = live.aborted.get((ii, q), 0) + 1
                                 _hard_cancel(live.handlers[(ii, q)])
                                 state["fired"] = q
                                 return
@@ -462,6 +531,7 @@ def run_scenario(sc: dict, chooser: Callable[[Live, int], Any] | None = None, ma
                       "sniped": {f"{k[0]}.{k[1]}": v["fired"] for k, v in sniped.items()},
                       "skipped": [list(p[1:]) for p in post if p[0] == "nstart_skipped"],
                       "awaiting": {f"{k[0]}.{k[1]}": list(v) for k, v in live.awaiting.items()},
+                      "cleaning": [list(k) for k in live.cleaning],
                       "ev": [ev0, len(live.events)]})
 
     async def main(loop: VLoop) -> None:
@@ -487,7 +557,10 @@ def run_scenario(sc: dict, chooser: Callable[[Live, int], Any] | None = None, ma
             "cfg": {i: dict(c) for i, c in live.cfg.items()}, "ops_concrete": concrete,
             "outcome": {f"{k[0]}.{k[1]}": v for k, v in live.outcome.items()},
             "hard": sorted(live.hard), "soft": sorted(live.soft), "entered": sorted(live.entered),
-            "nruns": dict(live.nruns), "nested": {f"{k[0]}.{k[1]}": list(v) for k, v in live.nested.items()}}
+            "nruns": dict(live.nruns), "nested": {f"{k[0]}.{k[1]}": list(v) for k, v in live.nested.items()},
+            "aborted": {f"{k[0]}.{k[1]}": v for k, v in live.aborted.items()},
+            "reused": {f"{k[0]}.{k[1]}": v for k, v in live.reused.items()},
+            "cleanup": {f"{k[0]}.{k[1]}": v for k, v in live.cleanup.items()}}
 
 
 # --------------------------------------------------------------------------
